@@ -138,6 +138,7 @@ def _guard(fn, arg):
 def pmap(fn, args, nproc=16):
     """parallel map with processes; fn must be a top-level function"""
     args = list(args)
+    nproc = int(os.environ.get("VERIF_NPROC", nproc))      # to share the machine with another job
     if nproc <= 1 or len(args) <= 1:
         return [_guard(fn, a) for a in args]
     with ProcessPoolExecutor(max_workers=nproc) as ex:
